@@ -98,6 +98,8 @@ def pair_histories(alphabet):
             cfg, choice, perm = K
             acts = [["SetAlign", b, cfg["align"]], ["SetStable", b, cfg["stable"]], ["SetScalar", b, cfg["scalar"]], ["SetCoup", b, cfg["coup"]]]
             acts += [["Assign", b, n, choice.get(n, "none")] for n in ("R1", "R2")]
+            if perm:
+                acts.append(["Permutate", b])
             return acts
 
         # one builder: A, B, A again;  two builders interleaved: 1 under A, 2 under B, 1 again
@@ -144,15 +146,12 @@ def run(chk, replay=None):
         [dict(base, align="dpd1", stable="all", scalar=1), {"R1": "bwff"}, 0],
         [dict(base, align="axis", stable="one"), {}, 0],
         [dict(base, stable="all", coup=1), {"R1": "bw"}, 0],
+        [dict(base), {}, 1],
     ]
     if tier == "thorough":
-        alphabet += [[dict(base, align="dpd2", scalar=1), {"R1": "bw", "R2": "bwff"}, 0], [dict(base, align="axis", coup=1), {"R2": "bwff"}, 0]]
+        alphabet += [[dict(base, align="dpd2", scalar=1), {"R1": "bw", "R2": "bwff"}, 0], [dict(base, align="axis", coup=1), {"R2": "bwff"}, 0],
+                     [dict(base, align="dpd1", stable="one"), {"R1": "bwff"}, 1]]
     histories += pair_histories(alphabet)
-    if tier == "quick":
-        # keep quick within budget: all simulated behaviours + a seeded half of the pair histories
-        ph = histories[nsim:]
-        rng.shuffle(ph)
-        histories = histories[:nsim] + ph[: 30]
     reactions = [("jpsi_ksp_sigma", "helicity"), ("synth:11", "canonical-helicity")] + ([("jpsi_3pi_rho", "helicity"), ("synth:5", "helicity")] if tier == "thorough" else [])
     seeds = [None, 0, 12345] + ([1] if tier == "thorough" else [])
 
@@ -163,23 +162,35 @@ def run(chk, replay=None):
             keys.setdefault(kstr(k), k)
     keylist = list(keys.values())
 
+    nchunks = 5
+    chunks = [list(range(c, len(histories), nchunks)) for c in range(nchunks)]
     jobs = []
     for rname, formalism in reactions:
-        jobs.append(("replay", rname, formalism, None))
+        for c in range(nchunks):
+            jobs.append(("replay", rname, formalism, None, c))
         for s in seeds:
-            jobs.append(("ref", rname, formalism, s))
+            jobs.append(("ref", rname, formalism, s, 0))
 
     def do(job):
-        mode, rname, formalism, s = job
+        mode, rname, formalism, s, c = job
         payload = {"reaction": rname, "formalism": formalism, "mode": mode}
         if mode == "ref":
             payload["keys"] = keylist
         else:
-            payload["behaviours"] = histories
+            payload["behaviours"] = [histories[i] for i in chunks[c]]
         return job, run_exec(payload, s)
 
-    with ThreadPoolExecutor(max_workers=min(len(jobs), 12)) as ex:
+    with ThreadPoolExecutor(max_workers=min(len(jobs), 16)) as ex:
         outs = dict(ex.map(do, jobs))
+    # reassemble the chunked replay results per reaction
+    for rname, formalism in reactions:
+        merged = [None] * len(histories)
+        for c in range(nchunks):
+            for i, r in zip(chunks[c], outs[("replay", rname, formalism, None, c)]["results"]):
+                merged[i] = r
+        outs[("replay", rname, formalism, None)] = {"results": merged}
+        for s in seeds:
+            outs[("ref", rname, formalism, s)] = outs[("ref", rname, formalism, s, 0)]
 
     total_formulates = 0
     for rname, formalism in reactions:
